@@ -471,6 +471,15 @@ class EagerEncoder(Encoder):
         # Only if we find exactly one corresponding matrix, it is indeed a valid design vector
         return i_mat[0] if len(i_mat) == 1 else None, existence
 
+    def get_stored_design_vector(self, i_mat: int, existence: NodeExistence = None) -> Optional[np.ndarray]:
+        """The design vector as encoded for a given matrix, inactive design variables have a value of -1"""
+        if existence is None:
+            existence = NodeExistence()
+        design_vectors = self._design_vectors.get(existence)
+        if design_vectors is None or i_mat >= design_vectors.shape[0]:
+            return
+        return design_vectors[i_mat, :]
+
     def _has_existence(self, existence: NodeExistence = None):
         if existence is None:
             existence = NodeExistence()
